@@ -8,8 +8,8 @@ import (
 
 // poisonInputs end in a state-sensitive place (after a dot, inside a literal / comment / escape, after '@');
 // stateProbes are inputs whose first token is lexed differently if lexer state leaks from a previous call.
-var poisonInputs = []string{"SELECT t.'oops", "SELECT (a)./* never closed", "a.", "a. ", "f().", "x[0].", "@p.", "a.`", "SELECT '", "SELECT \"", "SELECT '''", "/*", "SELECT `", "SELECT 'a\\", "a.1a", "1a", "@", "a.b.\x00", "SELECT r'", "b\"\\u", "a . 'x", ").", "]."}
-var stateProbes = []string{"1st; SELECT 2", "0x; SELECT 2", "r'\\d+;'; SELECT 2", "select; 1", "1; 2", "5.x;", "from;from", "b'a';", "1e5;", ".5;", "`a`;b", "x", "", ";", "1", "select"}
+var poisonInputs = []string{"SELECT t.'oops", "SELECT (a)./* never closed", "a.", "a. ", "f().", "x[0].", "@p.", "a.`", "SELECT '", "SELECT \"", "SELECT '''", "/*", "SELECT `", "SELECT 'a\\", "a.1a", "1a", "@", "a.b.\x00", "SELECT r'", "b\"\\u", "a . 'x", ").", "].", "1 x", "1 @p", "f(1) )", "a[0] ]", "INT64 ]", "SELECT 1 x y", "DROP TABLE t x", "a b", "(a", "[a", "a."}
+var stateProbes = []string{"1st; SELECT 2", "0x; SELECT 2", "r'\\d+;'; SELECT 2", "select; 1", "1; 2", "5.x;", "from;from", "b'a';", "1e5;", ".5;", "`a`;b", "x", "", ";", "1", "select", ".5", ".5 + 1", ".x", ".5e3 ", "5", "x.y", "from"}
 
 // c12Sequences: a failing SplitRawStatements call must not influence the next call.
 func c12Sequences(c *Ctx) {
@@ -44,4 +44,20 @@ func c18Sequences(c *Ctx, cases []c18Case, ref []uint64) {
 			}
 		}
 	}
+}
+
+// qualifiedSpecialForms: the special call-like forms of the grammar written with a path qualifier, in several
+// spellings. The unchanged parser rejects most of them; they are judged only when accepted (near misses for
+// special-casing by function name).
+func qualifiedSpecialForms() []string {
+	forms := []string{"COUNT(*)", "count(*)", "Count ( * )", "CAST(x AS INT64)", "SAFE_CAST(x AS STRING)", "EXTRACT(DAY FROM d)", "IF(a, b, c)", "ARRAY(SELECT 1)", "EXISTS(SELECT 1)",
+		"REPLACE_FIELDS(a, 1 AS b)", "WITH(a AS 1, a)", "DATE '2020-01-01'", "TIMESTAMP 'x'", "NUMERIC '1'", "JSON '{}'", "OFFSET(1)", "a[OFFSET(1)]", "NEW T(1)", "STRUCT(1)", "UNNEST(a)", "INTERVAL 1 DAY", "CASE WHEN a THEN 1 END"}
+	var out []string
+	for _, f := range forms {
+		for _, q := range []string{"", "SAFE.", "safe.", "pkg.util.", "`SAFE`.", "a.b.c.d.", "NET.", "x."} {
+			out = append(out, q+f)
+		}
+		out = append(out, "f("+f+")", "("+f+")", f+".x", f+"[0]", "`"+f+"`")
+	}
+	return out
 }
